@@ -328,8 +328,8 @@ def known_set_accumulation(ctx, chk, rule):
             chk.ok(rule, DIRECT, f'`{k}`: {len(accs)} accumulation site(s) in the paging loop', detail='initialised once, only accumulated inside loops')
 
 
-def run(ctx):
-    chk = Check('C09', ctx)
+def run(ctx, host=None):
+    chk = host.sub('C09') if host is not None else Check('C09', ctx)
     prog, K, E = ctx.prog, ctx.kinds, ctx.effects
     R1 = chk.rule('C09.R1', 'loose dedup: one path per key; existing copy verified or replaced; absent destination published', 2)
     R2 = chk.rule('C09.R2', 'pack_all_loose removes already-indexed keys (both lookup strategies) before the write loop', 1)
